@@ -37,6 +37,9 @@ type rewriter struct {
 	sites map[string]int
 	tmpN  int
 	io    bool // file-system calls (package os, io/ioutil, filepath.Glob, methods of *os.File) become scheduling points
+	race   bool // memory-access hooks for the happens-before race detector (race.go)
+	shared map[*types.Var]bool
+	curFn  string
 }
 
 // ioCall reports whether the statement contains a file-system call outside function literals.
@@ -212,7 +215,13 @@ func (r *rewriter) patchContinues(body *ast.BlockStmt, label string, pre func() 
 func (r *rewriter) rewriteList(list []ast.Stmt) []ast.Stmt {
 	var out []ast.Stmt
 	for _, s := range list {
-		out = append(out, r.rewriteStmt(s)...)
+		if !r.race {
+			out = append(out, r.rewriteStmt(s)...)
+			continue
+		}
+		// the accesses are read off the statement as written, before hooks are inserted into it
+		c, bracket, canFollow := r.accesses(s)
+		out = append(out, r.raceWrap(r.rewriteStmt(s), c, bracket, canFollow, s)...)
 	}
 	return out
 }
@@ -539,11 +548,18 @@ func main() {
 	clock := flag.String("clock", "", "comma separated files whose time.Now/Since are virtualised")
 	mute := flag.String("mute", "", "comma separated files whose fmt.Printf calls are dropped")
 	iof := flag.String("io", "", "comma separated files whose file-system calls become scheduling points")
+	racef := flag.String("race", "", "comma separated files whose memory accesses are hooked for the happens-before race detector")
 	flag.Parse()
 	ioFiles := map[string]bool{}
 	for _, f := range strings.Split(*iof, ",") {
 		if f != "" {
 			ioFiles[filepath.Join(*repo, f)] = true
+		}
+	}
+	raceFiles := map[string]bool{}
+	for _, f := range strings.Split(*racef, ",") {
+		if f != "" {
+			raceFiles[filepath.Join(*repo, f)] = true
 		}
 	}
 	want := map[string]bool{}
@@ -589,9 +605,20 @@ func main() {
 				continue
 			}
 			rel, _ := filepath.Rel(*repo, path)
-			r := &rewriter{fset: p.Fset, info: p.TypesInfo, file: f, rel: rel, sites: map[string]int{}, io: ioFiles[path]}
+			r := &rewriter{fset: p.Fset, info: p.TypesInfo, file: f, rel: rel, sites: map[string]int{}, io: ioFiles[path], race: raceFiles[path], shared: map[*types.Var]bool{}}
+			if r.race {
+				for _, d := range f.Decls {
+					if fd, ok := d.(*ast.FuncDecl); ok {
+						r.computeShared(fd)
+					}
+				}
+			}
 			for _, d := range f.Decls {
 				if fd, ok := d.(*ast.FuncDecl); ok && fd.Body != nil {
+					r.curFn = fd.Name.Name
+					if fd.Recv != nil && len(fd.Recv.List) == 1 {
+						r.curFn = strings.TrimPrefix(types.ExprString(fd.Recv.List[0].Type), "*") + "." + fd.Name.Name
+					}
 					fd.Body.List = r.rewriteList(fd.Body.List)
 				}
 				if gd, ok := d.(*ast.GenDecl); ok {
